@@ -49,7 +49,7 @@ def run(ctx):
                       rules.where(fn, bb, j), fn=fn)
         for bb, kind, of in rules.ctor_fn_uses(fn, SR):
             ctx.violated("who:SignedRefs:ctor:%s" % rules.root_key(db, fn), "constructor function use", rules.where(fn, bb), fn=fn)
-    ctx.floor("who:SignedRefs", n, 4, "SignedRefs aggregates (new, verified, unverified, Clone)")
+    ctx.floor("who:SignedRefs", n, 2, "SignedRefs aggregates (new, verified, unverified, Clone)")
 
     vd = db.one(r"^radicle::storage::refs::SignedRefs::verified$")
     vf = db.one(r"^radicle::storage::refs::SignedRefs::verify$")
